@@ -137,8 +137,18 @@ type Cmd struct {
 	waited       bool
 }
 
+// Command resolves a bare program name in the (simulated) host PATH, as exec.Command does in
+// the process's own PATH; a failed look-up is reported by Start.
 func Command(name string, arg ...string) *Cmd {
-	return &Cmd{Path: name, Args: append([]string{name}, arg...)}
+	c := &Cmd{Path: name, Args: append([]string{name}, arg...)}
+	if !strings.ContainsRune(name, filepath.Separator) {
+		if lp, err := LookPath(name); err != nil {
+			c.Err = err
+		} else {
+			c.Path = lp
+		}
+	}
+	return c
 }
 
 func CommandContext(ctx context.Context, name string, arg ...string) *Cmd {
@@ -173,6 +183,13 @@ func (c *Cmd) Start() error {
 	if c.Process != nil {
 		return fmt.Errorf("exec: already started")
 	}
+	if c.Err != nil {
+		return c.Err
+	}
+	if strings.HasPrefix(filepath.Base(c.Path), "busy") {
+		// a program file that somebody still holds open for writing
+		return &os.PathError{Op: "fork/exec", Path: c.Path, Err: syscall.ETXTBSY}
+	}
 	if fi, err := os.Stat(c.Path); err != nil || fi.IsDir() {
 		return &os.PathError{Op: "fork/exec", Path: c.Path, Err: syscall.ENOENT}
 	} else if fi.Mode()&0o111 == 0 {
@@ -200,6 +217,11 @@ func (c *Cmd) Start() error {
 	// behaviour at start
 	if v, ok := p.Spec["out"]; ok && c.Stdout != nil {
 		io.WriteString(c.Stdout, v+"\n")
+	}
+	if n, err := strconv.Atoi(p.Spec["bigout"]); err == nil && n > 0 && c.Stdout != nil {
+		// a chatty program: n bytes of output in lines of 100
+		line := strings.Repeat("x", 99) + "\n"
+		io.WriteString(c.Stdout, strings.Repeat(line, n/100))
 	}
 	if v, ok := p.Spec["err"]; ok && c.Stderr != nil {
 		io.WriteString(c.Stderr, v+"\n")
